@@ -270,7 +270,8 @@ def c01(tier):
                 embeds = [0]
                 # the high embedding maps MaxId to u32::MAX; "maximum over nothing is 0 -> start at 1" is not
                 # shift-invariant, so it needs an existing ID or a usable lock value
-                if has_ref or (cache and st["lock"] >= 0):
+                # ... and "a recorded next ID of 0 is ignored" is not shift-invariant either: abstract lock 0 stays at base 0
+                if (has_ref or (cache and st["lock"] >= 0)) and st["lock"] != 0:
                     embeds.append(rl.bl.U32MAX - MAXID)
                 for base in embeds:
                     sc = scen_from_model(st, "pre-%d-%s-%s-%s" % (i, "c" if cache else "n", "s" if structured else "u",
@@ -380,6 +381,10 @@ def c02(tier):
         for name, text in LOCKS.items():
             sc = rl.Scenario("lock-" + name, {"f1.rs": [S(11), S(12, ref=3)], "f2.rs": [S(21), S(22)]}, lock=text, structured=structured)
             rl.planned_runs(binary, sc, [[("edit", "")]], batch, v, follow="c02", sigbase={"lock_text": name})
+    # a later run of a history (after the highest-numbered statement was deleted) cannot examine / open / read the lock
+    for structured in (False, True):
+        sc = rl.Scenario("lock-unreadable-later", {"f1.rs": [S(11), S(12)], "f2.rs": [S(21)]}, lock=None, structured=structured)
+        rl.planned_runs(binary, sc, [[("edit", "")]], batch, v, follow="c02_lockread", sigbase={"lock_read_fault": True})
     # statements that cannot take a reference (non-literal ref value) before statements that need one, in the same file
     for lock in (None, 10):
         sc = rl.Scenario("unusable-first", {"f1.rs": [S(11, kind="unusable"), S(12), S(13, kind="unusable"), S(14)],
